@@ -350,7 +350,10 @@ PLAIN_TYPES = (type(None), bool, int, bytes, str, datetime.datetime, tuple, list
 
 def non_plain(v, path="d"):
     """first non-plain value inside a to_dict() result, or None"""
-    if type(v) not in PLAIN_TYPES:
+    import collections
+    if type(v) not in PLAIN_TYPES and type(v) is not collections.OrderedDict:
+        # (an OrderedDict is what the 'odict' mapping mode of the generator itself puts inside free-form metadata, also inside
+        # lists, where to_dict() hands the caller's own containers back: plain enough, and serialisable)
         return "%s: %s" % (path, type(v).__name__)
     if isinstance(v, (tuple, list)):
         for k, x in enumerate(v):
